@@ -20,6 +20,7 @@ JOBS = {
 }
 SPEC = {
     "level": "exploration",
+    "level_text": 'Exploration: completion monitor on the real calls at the default recursion limit for 14 size families up to 5 000 (quick) / 10 000 (thorough) atoms, a sweep of every family at every size 1..40, and a stack-depth monitor that would steer to the critical size if depth grew with n. A watchdog firing is inconclusive, never a violation.',
     "technique": "completion monitor on canonicalize/serialize/parse for size families, steered by a sys.setprofile stack-depth monitor; verdict only from a real exception at the default recursion limit",
     "rule": ("cases: one subprocess per (family, size): paths, ladders, combs, caterpillars, polymers -[CH2-CHCl]-, peptide-like backbones, cycles, n x H2, n isolated atoms of all elements, "
              "K_n, stars, grids, binary trees, a single atom; each molecule goes parse(formula+tuples) -> canonicalize -> serialize -> parse(output) and also direct graph -> canonicalize -> serialize; "
